@@ -33,3 +33,73 @@ func edgeStart(f *ssa.Function, isFlag func(ssa.Value) bool, want bool) *ssa.Bas
 	}
 	return nil
 }
+
+// flagEdge returns an edge predicate: the CFG edge b→s is the one taken when the boolean flag `flag` of
+// the object named base was read as `want` by the test ending b (directly or through negations and
+// decided short-circuit operands).
+func flagEdge(p *core.Prog, base, flag string, want bool) func(b, s *ssa.BasicBlock) bool {
+	return func(b, s *ssa.BasicBlock) bool {
+		if len(b.Instrs) == 0 || len(b.Succs) != 2 || b.Succs[0] == b.Succs[1] {
+			return false
+		}
+		iff, ok := b.Instrs[len(b.Instrs)-1].(*ssa.If)
+		if !ok {
+			return false
+		}
+		taken := b.Succs[0] == s
+		for _, cnd := range core.ExpandCond(core.Cond{V: iff.Cond, True: taken, If: iff}) {
+			n := core.Normalize(cnd)
+			if n.True == want && flagRead(p, n.V, base, flag, 0) {
+				return true
+			}
+		}
+		return false
+	}
+}
+
+// liveValue looks through a phi that merges the result of the live path with the result of the paths
+// that left on a skipped edge (e.g. the zero value returned when the closed flag was set): it returns the
+// single value arriving over the non-skipped edges, or v itself.
+func liveValue(v ssa.Value, skipEdge func(b, s *ssa.BasicBlock) bool) ssa.Value {
+	phi, ok := v.(*ssa.Phi)
+	if !ok {
+		return v
+	}
+	var live ssa.Value
+	for i, e := range phi.Edges {
+		pred := phi.Block().Preds[i]
+		if skipEdge(pred, phi.Block()) || onlyViaSkipped(pred, skipEdge) {
+			continue
+		}
+		e = core.Resolve(e)
+		if live != nil && live != e {
+			return v
+		}
+		live = e
+	}
+	if live == nil {
+		return v
+	}
+	return live
+}
+
+// onlyViaSkipped: every path from the entry to b traverses a skipped edge.
+func onlyViaSkipped(b *ssa.BasicBlock, skipEdge func(b, s *ssa.BasicBlock) bool) bool {
+	f := b.Parent()
+	seen := map[*ssa.BasicBlock]bool{f.Blocks[0]: true}
+	work := []*ssa.BasicBlock{f.Blocks[0]}
+	for len(work) > 0 {
+		x := work[len(work)-1]
+		work = work[:len(work)-1]
+		if x == b {
+			return false
+		}
+		for _, s := range x.Succs {
+			if !seen[s] && !skipEdge(x, s) {
+				seen[s] = true
+				work = append(work, s)
+			}
+		}
+	}
+	return true
+}
